@@ -79,6 +79,10 @@ CLAIMED["C40"] = ("memsim", "exploration", "deterministic simulation: the same s
     "A seeded document set is ingested twice into fresh files: plain puts + commit, and begin_batch/end_batch with random options (skip_sync, compression level, disable_auto_checkpoint, pre-sized log) and/or several commit_skip_indexes + finalize_indexes. Frames, contents, metadata, embeddings, timeline, searches (sketch on/off) and vector searches are compared on the live handles and after reopening. The durability clause of skip_sync is decided by C03's power-loss images over histories that contain batches.",
     "Physical placement (offsets, stored sizes) is excluded: batch options change the compression level on purpose. Known finding: no sketch entries on the skip-index path (KNOWN_FINDINGS.jsonl).", "DESIGN.md section 7 C40")
 
+CLAIMED["C41"] = ("shuttlesim", "exploration", "deterministic simulation: the real enrichment worker thread on a real Memvid under shuttle's seeded random and PCT schedulers, workload drawn from the schedule's own PRNG, failures persisted as replayable schedule files",
+    "memvid-core is compiled with --cfg memvid_verif_shuttle, which takes std::sync and std::thread of the worker modules from shuttle. Each schedule creates a memory, starts start_enrichment_worker, runs a random foreground history (puts that ask for enrichment, plain puts, commits, searches), then (random scheduler) waits yielding until the queue is empty, or (PCT) stops at once; stop_and_wait must return; after a final commit and after reopening every acknowledged document is present with its bytes, never-queued documents are unchanged (Enriched), every queued document is Enriched (random) or still queued (PCT), and frames_processed equals the number of documents enriched (exactly once). Deadlocks and schedules that exceed the step bound are reported by shuttle with the schedule.",
+    "Liveness is judged only under the random scheduler (fair in probability); PCT is unfair by design. Tantivy's own threads are real and not scheduled. sleep is modelled as a yield in the seam.", "DESIGN.md section 7 C41")
+
 NA = {
  "C30": "pure function of an in-memory value or byte slice (header/footer/TOC/time-index codecs): no schedule, clock, fault or history for a simulator to control",
  "C32": "pure function of a query string (and crate-private): no simulated dimension",
@@ -125,7 +129,7 @@ def main():
         "setup_cmd": "bin/setup",
         "hooks": {
             "guard": "--cfg memvid_verif_shuttle",
-            "enable": "engine 3 only: RUSTFLAGS=\"--cfg memvid_verif_shuttle\" with a shadow manifest that adds shuttle; engines 1/2 run /repo unmodified with no cfg",
+            "enable": "engine 3 (C41) only: shuttlesim/.cargo/config.toml sets rustflags --cfg memvid_verif_shuttle and bin/mkshadow generates a shadow manifest of /repo/Cargo.toml that adds the shuttle dependency; engines 1/2 build /repo unmodified with no cfg",
             "baseline_off_cmd": BASELINE,
             "source_commits": hooks_commits,
             "add_only": True,
@@ -135,6 +139,8 @@ def main():
              "kind_free_text": "deterministic simulator: libc interposition inside the binary (syscall recorder, fault injection, virtual clock, seeded entropy), reference model, crash-image builder, shrinker, replayer; one simulated world per forked process"},
             {"name": "walsim", "path": "/verif/sim", "serves_properties": [c["property_id"] for c in checks if c["engine"] == "walsim"],
              "kind_free_text": "same binary: drives the public EmbeddedWal API on a file in the simulated directory against a vector-of-records model"},
+            {"name": "shuttlesim", "path": "/verif/shuttlesim", "serves_properties": [c["property_id"] for c in checks if c["engine"] == "shuttlesim"],
+             "kind_free_text": "shuttle-scheduled execution of the real enrichment worker (memvid-core built with --cfg memvid_verif_shuttle through a generated shadow manifest that adds the shuttle dependency)"},
         ],
         "checks": checks,
         "not_applicable": na,
